@@ -28,7 +28,8 @@ ASSUMPTIONS = ["buffer ids are opaque: the model only requires an id not to "
                "an unbuffered packet-in carries the whole frame whatever "
                "max_len / miss_send_len say"]
 REQUIRED = ["packet_ins", "buffered", "unbuffered_pool_full", "released_by_packet_out",
-            "released_by_flow_mod", "stale_uses", "bogus_uses", "truncated",
+            "released_by_flow_mod", "flow_mod_modify_with_buffer", "stale_uses",
+            "bogus_uses", "truncated",
             "ids_reused_after_release"]
 TIMEOUT = {"quick": 900, "thorough": 7200}
 
@@ -173,11 +174,23 @@ def run_history (case, rep):
         if bid in outstanding: continue
         rep.count("bogus_uses")
       if k == "fm":
-        extra_flows += 1
-        m = dict(ALLM); m["in_port"] = 60000 - extra_flows
+        # the command varies: ADD of a new entry, MODIFY / MODIFY_STRICT of an
+        # entry installed by an earlier step (only its actions change), MODIFY
+        # that matches nothing (acts as ADD); the buffer applies to all of them
+        variant = (op[1] // 5 + op[2]) % 4
+        command = 0
+        if variant in (1, 2) and extra_flows > 0:
+          target = 60000 - (1 + op[1] % extra_flows)
+          command = variant          # 1 = MODIFY, 2 = MODIFY_STRICT
+          rep.count("flow_mod_modify_with_buffer")
+        else:
+          extra_flows += 1
+          target = 60000 - extra_flows
+          if variant == 3: command = 1
+        m = dict(ALLM); m["in_port"] = target
         m["wildcards"] = OM.FW_ALL & ~OM.FW_IN_PORT
         raw_msg = ofwire.enc_message("flow_mod", dict(
-          xid=xid, match=m, cookie=0, command=0, idle_timeout=0,
+          xid=xid, match=m, cookie=0, command=command, idle_timeout=0,
           hard_timeout=0, priority=1, buffer_id=bid, out_port=0xffff, flags=0,
           actions=acts))
       else:
